@@ -1,2 +1,3 @@
 //! reference models (independent of kira's code)
+pub mod mix;
 pub mod playback;
